@@ -147,6 +147,9 @@ static Csr<double> gen_system(Rng &r, std::string &fam, bool big) {
 // replacement matrix for solve_mtx: same size; either perturbed values on the same pattern or another generator
 static Csr<double> replacement(const Csr<double> &A, Rng &r) { Csr<double> A2 = A; for (auto &v : A2.val) v *= (1.0 + 0.02 * r.uni()); for (size_t i = 0; i < A2.n; ++i) for (auto j = A2.ptr[i]; j < A2.ptr[i + 1]; ++j) if ((size_t)A2.col[j] == i) A2.val[j] *= 1.05; return A2; }
 
+// handles are destroyed through the C API even when a later call on them throws (a leak would otherwise be the harness's)
+struct HPrecond { amgclHandle h; explicit HPrecond(amgclHandle h_) : h(h_) {} ~HPrecond() { if (h) amgcl_precond_destroy(h); } operator amgclHandle() const { return h; } HPrecond(const HPrecond&) = delete; };
+struct HSolver { amgclHandle h; explicit HSolver(amgclHandle h_) : h(h_) {} ~HSolver() { if (h) amgcl_solver_destroy(h); } operator amgclHandle() const { return h; } HSolver(const HSolver&) = delete; };
 template <class F> std::string guarded(F f) { try { f(); return ""; } catch (const std::exception &e) { return std::string("E:") + e.what(); } }
 
 //--- sub-check: precond (create / apply / report / destroy, both index bases) --------------------------------
@@ -167,13 +170,13 @@ static void sub_precond() {
         // C handles, 0-based and 1-based
         std::vector<CVec> x0, x1; std::string e_c, e_f;
         amgclHandle prm = noprm ? nullptr : c_params(p, jf.path);
-        e_c = guarded([&] { amgclHandle h = amgcl_precond_create(a0.n, a0.ptr.get(), a0.col.get(), a0.val.get(), prm);
+        e_c = guarded([&] { HPrecond h(amgcl_precond_create(a0.n, a0.ptr.get(), a0.col.get(), a0.val.get(), prm));
             for (auto &f : rhs) { CVec cf(f), cx(std::vector<double>(A.n, 555.0)); amgcl_precond_apply(h, cf.p.get(), cx.p.get()); x0.push_back(std::move(cx)); }
             if (idx % 9 == 0) amgcl_precond_report(h);
-            amgcl_precond_destroy(h); });
-        e_f = guarded([&] { amgclHandle h = amgcl_precond_create_f(a1.n, a1.ptr.get(), a1.col.get(), a1.val.get(), prm);
+            });
+        e_f = guarded([&] { HPrecond h(amgcl_precond_create_f(a1.n, a1.ptr.get(), a1.col.get(), a1.val.get(), prm));
             for (auto &f : rhs) { CVec cf(f), cx(std::vector<double>(A.n, 555.0)); amgcl_precond_apply(h, cf.p.get(), cx.p.get()); x1.push_back(std::move(cx)); }
-            amgcl_precond_destroy(h); });
+            });
         if (prm) amgcl_params_destroy(prm);
         std::string cell = std::string(noprm ? "default" : COARSENINGS[ci]) + "+" + (noprm ? "default" : RELAXATIONS[ri]);
         c.check(e_c == e_cpp, "precond:create:outcome-differs-from-c++", "C [" + e_c + "] C++ [" + e_cpp + "]");
@@ -206,16 +209,16 @@ static void sub_solver() {
             std::tie(it_r, rs_r) = (*s)(f, x_r); std::tie(jt_r, qs_r) = (*s)(A2.tie(), f, y_r); });
         amgclHandle prm = noprm ? nullptr : c_params(p, jf.path);
         conv_info i0 = {-1, 0}, m0 = {-1, 0}, i1 = {-1, 0}, m1 = {-1, 0}; CVec cf(f), x0(xinit), y0(xinit), x1(xinit), y1(xinit);
-        std::string e_c = guarded([&] { amgclHandle h = amgcl_solver_create(a0.n, a0.ptr.get(), a0.col.get(), a0.val.get(), prm);
+        std::string e_c = guarded([&] { HSolver h(amgcl_solver_create(a0.n, a0.ptr.get(), a0.col.get(), a0.val.get(), prm));
             i0 = amgcl_solver_solve(h, cf.p.get(), x0.p.get());
             m0 = amgcl_solver_solve_mtx(h, b0.ptr.get(), b0.col.get(), b0.val.get(), cf.p.get(), y0.p.get());
             if (idx % 11 == 0) amgcl_solver_report(h);
-            amgcl_solver_destroy(h); });
-        std::string e_f = guarded([&] { amgclHandle h = amgcl_solver_create_f(a1.n, a1.ptr.get(), a1.col.get(), a1.val.get(), prm);
+            });
+        std::string e_f = guarded([&] { HSolver h(amgcl_solver_create_f(a1.n, a1.ptr.get(), a1.col.get(), a1.val.get(), prm));
             std::unique_ptr<conv_info> ci1(new conv_info), cm1(new conv_info);                                  // exact-size blocks for the out-parameters
             amgcl_solver_solve_f(h, cf.p.get(), x1.p.get(), ci1.get()); i1 = *ci1;
             amgcl_solver_solve_mtx_f(h, b1.ptr.get(), b1.col.get(), b1.val.get(), cf.p.get(), y1.p.get(), cm1.get()); m1 = *cm1;
-            amgcl_solver_destroy(h); });
+            });
         if (prm) amgcl_params_destroy(prm);
         std::string sn = noprm ? "default" : SOLVERS[si];
         c.check(e_c == e_cpp, "solver:create-solve:outcome-differs-from-c++", "C [" + e_c + "] C++ [" + e_cpp + "]");
@@ -243,7 +246,7 @@ template <class CT, class Typed> void typed_case(long idx, const char *what, Typ
     std::vector<double> f = vf::random_vector(A.n, r), x_t(A.n, 0.0); size_t it_t = 0; double rs_t = 0;
     std::string e_t = guarded([&] { CT s(A.tie(), tp); std::tie(it_t, rs_t) = s(f, x_t); });
     amgclHandle prm = c_params(p, jf.path); conv_info i0 = {-1, 0}; CVec cf(f), x0(std::vector<double>(A.n, 0.0));
-    std::string e_c = guarded([&] { amgclHandle h = amgcl_solver_create(a0.n, a0.ptr.get(), a0.col.get(), a0.val.get(), prm); i0 = amgcl_solver_solve(h, cf.p.get(), x0.p.get()); amgcl_solver_destroy(h); });
+    std::string e_c = guarded([&] { HSolver h(amgcl_solver_create(a0.n, a0.ptr.get(), a0.col.get(), a0.val.get(), prm)); i0 = amgcl_solver_solve(h, cf.p.get(), x0.p.get()); });
     amgcl_params_destroy(prm);
     if (!c.check(e_c == e_t, std::string("typed_twin:") + what + ":outcome-differs", "C [" + e_c + "] typed C++ [" + e_t + "]") || !e_c.empty()) return;
     c.check(i0.iterations == (int)it_t && !memcmp(&i0.residual, &rs_t, 8) && x0.same(x_t), std::string("typed_twin:") + what + ":parameters-did-not-reach-the-solver-unchanged",
@@ -301,7 +304,7 @@ static void sub_maxiter() {
         Case c("maxiter", idx, J().s("solver", sn).n("maxiter", k).s("family", fam).n("n", A.n).s("prm", p.show()));
         JsonFile jf(p.json, idx); CArrays a0(A, 0); std::vector<double> f = vf::random_vector(A.n, r); CVec cf(f), x(std::vector<double>(A.n, 0.0)); conv_info i0 = {-1, 0};
         amgclHandle prm = c_params(p, jf.path);
-        std::string e = guarded([&] { amgclHandle h = amgcl_solver_create(a0.n, a0.ptr.get(), a0.col.get(), a0.val.get(), prm); i0 = amgcl_solver_solve(h, cf.p.get(), x.p.get()); amgcl_solver_destroy(h); });
+        std::string e = guarded([&] { HSolver h(amgcl_solver_create(a0.n, a0.ptr.get(), a0.col.get(), a0.val.get(), prm)); i0 = amgcl_solver_solve(h, cf.p.get(), x.p.get()); });
         amgcl_params_destroy(prm);
         if (!c.check(e.empty(), std::string("maxiter:") + sn + ":exception", e)) continue;
         c.check(i0.iterations == k, std::string("maxiter:") + sn + ":not-honoured", "maxiter = k with tol = 1e-30 must stop after exactly k iterations", J().n("k", k).n("iterations", i0.iterations).n("residual", i0.residual));
